@@ -69,6 +69,28 @@ Theorem C15_periodic_wrap_then_bin : forall (c P x : R) (nx : Z) (w : R),
 Proof. exact periodic_in_range. Qed.
 Print Assumptions C15_periodic_wrap_then_bin.
 
+(* Re-mapping branch of read_multicol (a file written on one grid read into another).  One periodic
+   dimension: every value is wrapped to the in-range bin that contains it modulo the period (any number of
+   periods away; before the fix of wrap_detect_edge this held only down to one period below the grid). *)
+Theorem C15_remap_periodic_target : forall (l w x : R) (n : Z), (0 < w)%R -> (0 < n)%Z ->
+  let i := value_to_bin Rops l w x in
+  let a := (i mod n)%Z in
+  remap_target Rops (mkGeom [l] [w] [n] [true]) [x] = Some a /\ (0 <= a < n)%Z /\
+  exists k : Z, (l + IZR a * w <= x - IZR k * (IZR n * w) < l + (IZR a + 1) * w)%R.
+Proof. exact remap_target_1d_periodic. Qed.
+Print Assumptions C15_remap_periodic_target.
+
+(* Nothing is lost when distinct records land in distinct receiving bins: after the read every record
+   that has a target bin is found in it (all shapes, all geometries). *)
+Theorem C15_remap_lossless : forall (g : grid_geom) (recs : list (list R * R)) (rc : list R * R) (a : Z),
+  all_pos (g_nx g) -> NoDup (targets g recs) -> In rc recs -> remap_target Rops g (fst rc) = Some a ->
+  nth (Z.to_nat a) (remap Rops g recs) 0%R = snd rc.
+Proof.
+  intros g recs rc a Hp Hnd Hin Ht. unfold remap.
+  apply (remap_lossless g Hp recs _ rc a); auto. apply repeat_length.
+Qed.
+Print Assumptions C15_remap_lossless.
+
 (* non-vacuity: a 3x4 grid, an in-range index and the last index *)
 Example C15_example_addresses :
   all_pos [3; 4]%Z /\ in_range [3; 4]%Z [2; 3]%Z /\ address 1 [3; 4]%Z [2; 3]%Z = 11%Z /\
